@@ -17,7 +17,7 @@ def rand_keys(dt):
         else: v=random.choice([ii.min if ii.min>-2**62 else -2**62, min(ii.max,2**62), 0, -1 if ii.min<0 else 1])
         pool.add(v)
     ks=list(pool); random.shuffle(ks); return ks
-for it in range(30000):
+for it in range(int(__import__("os").environ.get("RECON_N", 30000))):
     dt=random.choice(kdts); keys=rand_keys(dt); n=len(keys)
     mod=random.choice([None,None,1,2,3,7,n,2*n+1,1000003])
     vals=[random.randint(-50,50) for _ in keys]
